@@ -139,3 +139,10 @@ package server
 //@ effect[C31:bulk-delete-after-the-request-was-allowed] every s.storage.DeleteObjects(_, $b, _)
 //@     needs before s.authorizeRequest(_, $op, _, _, _, _) -> ($stop) where !$stop && $op == authorization.OperationDeleteObjects && $b == bucketName
 //@ effect[C31:no-entry-judged-after-the-delete] every s.authorizeDeleteObjectEntry(__) forbids before s.storage.DeleteObjects(__)
+
+// C06. Paginated listing with a delimiter through the handler's page assembly (ghost scenario on the real
+// listAndFilterObjects over a storage that answers like the SQL metadata store; bounded random search).
+//@ func verifListingPagesCoverEveryKey
+//@ mode nosafety
+//@ bounded 2500
+//@ ensures[C06:every-key-listed-exactly-once-across-pages] result
